@@ -422,7 +422,10 @@ def monitor(case, ev, received, blocked):
                 dl = cur_t0 + wait
                 if t < dl:
                     hit('short-only-if', f'short batch {b} emitted at {t} < t_first + wait = {cur_t0} + {wait}, no end marker taken')
-                seen = sum(1 for ta in arr_time if ta < dl)
+                # only items count (whatever comes at or after the end marker is never owed to the consumer)
+                n_items = len(before_end)
+                seen = min(n_items, sum(1 for ta in arr_time if ta < dl))
+                arr_before_last_take = min(n_items, arr_before_last_take)
                 if seen > delivered:
                     hit('short-only-if', f'short batch {b} emitted at {t} although {seen - delivered} more item(s) had arrived '
                                          f'before t_first + wait = {dl}')
